@@ -1,5 +1,5 @@
 """C11 — CIF version and encoding selection: magic-code agreement and the two version-dependent diagnostics' guards."""
-from ..facts import Broken, strip, const, walk_eval, macro_name
+from ..facts import Broken, strip, const, walk, walk_eval, macro_name
 from ..interp import path
 from .. import cfgq
 from . import c02
@@ -147,4 +147,81 @@ def run(prog, chk):
             r5.ok(key, "only after `%s` was found NULL" % var)
     if n5 < 2:
         raise Broken("cif_parse: fewer than 2 assignments to the encoding name after the signature detection")
+
+    r6 = chk.rule("R6-named-default-encoding-used", "where cif_parse falls back to a default encoding (no signature, not CIF 2.0) the name "
+                  "handed to ucnv_open is options->default_encoding_name (NULL there means the system default), never a literal "
+                  "NULL: a named default is honoured without force_default_encoding", primary=False, floor=1)
+    n6 = 0
+    for (b, i, r, a) in cp.eval_sites("asg"):
+        if path(strip(a.get("lhs"))) != var or a.get("op") != "=":
+            continue
+        rr = strip(a.get("rhs"))
+        if isinstance(rr, dict) and rr.get("k") == "call":
+            continue
+        n6 += 1
+        key = "cif_parse:L%s" % a.get("l")
+        if const(a.get("rhs")) == 0:
+            r6.violation(cp.file, cp.name, a.get("l"), "default-encoding-name-ignored:L%s" % a.get("l"),
+                         "`%s = NULL` at L%s selects the converter library's own default although the caller may have named a default "
+                         "encoding (options->default_encoding_name): without force_default_encoding the named encoding is ignored "
+                         "and a CIF 1.1 file in that encoding is decoded wrongly" % (var, a.get("l")))
+        elif any(x.get("k") == "member" and x.get("name") == "default_encoding_name" for x in walk(a.get("rhs"))):
+            r6.ok(key, "the named default (or NULL = system default)")
+        else:
+            r6.ok(key, "a fixed encoding: %s" % (path(rr) or "constant"))
+    if n6 < 3:
+        raise Broken("cif_parse: fewer than 3 non-call assignments to the encoding name")
+
+    r7 = chk.rule("R7-preference-handed-over", "wherever cif_parse leaves the version undecided (0) for cif_parse_internal, "
+                  "prefer_cif2 is not positive: with a positive preference below 20 the provisional version -2 (`2.0 unless a "
+                  "version comment says otherwise`) is handed over on every path - also when a Unicode signature was found",
+                  primary=False, floor=1)
+    from ..interp import Interp as _Interp
+    hand = []
+
+    class _V(_Interp):
+        def clobbered_by_call(self, st, node):
+            # the options structure is the caller's and is not handed to any callee
+            return [q for q in super().clobbered_by_call(st, node) if not q.startswith("options->")]
+
+        def assign(self, st, node, lhs, p_, av, rhs):
+            if p_ and p_.endswith("scanner.cif_version"):
+                # what is known about the preference: the option itself or any local that is a plain copy of it
+                prefs = [st.sigma.get(a_) for a_ in pref_vars]
+                hand.append((node, st.sigma.get("cif_version"), prefs, st))
+            return st
+    pref_vars = ["options->prefer_cif2"]
+    for (b, i, r, x) in cp.eval_sites():
+        pairs = []
+        if x.get("k") == "asg" and x.get("op") == "=":
+            pairs.append((path(strip(x.get("lhs"))), x.get("rhs")))
+        elif x.get("k") == "decl":
+            pairs.extend((v["name"], v.get("init")) for v in x.get("vars", []) if v.get("init") is not None)
+        for nm, rhs in pairs:
+            if nm and (path(strip(rhs)) or "").endswith("->prefer_cif2") and nm not in pref_vars:
+                pref_vars.append(nm)
+    it = _V(prog, cp)
+    it.track_also(["cif_version"] + pref_vars)
+    it.run()
+    if not hand:
+        raise Broken("cif_parse: the store to scanner.cif_version was not observed")
+    bad = None
+    for (node, v, prefs, st) in hand:
+        undecided = v is None or v.contains(0)
+        positive = all(pr is None or any(pr.contains(k) for k in (1, 5, 19)) for pr in prefs)
+        pref = prefs[0]
+        if undecided and positive:
+            bad = (node, v, pref, st)
+            break
+    if it.overflow:
+        r7.unproved("cif_parse:version-hand-over", "state cap reached")
+    elif bad:
+        node, v, pref, st = bad
+        r7.violation(cp.file, cp.name, node.get("l"), "undecided-version-with-positive-preference",
+                     "scanner.cif_version is set from cif_version at L%s in a state where it can be 0 (undecided) while prefer_cif2 "
+                     "can be between 1 and 19: cif_parse_internal then falls back to CIF 1.1 for an input without version comment, "
+                     "although the caller asked for CIF 2.0 in that case (the path through the Unicode-signature arm)"
+                     % node.get("l"), path=["L%s" % x for x in st.trail_lines()][-25:])
+    else:
+        r7.ok("cif_parse:version-hand-over", "%d states at the hand-over: undecided only with prefer_cif2 <= 0" % len(hand))
 
